@@ -65,7 +65,7 @@ pub fn any_tearing() -> TearingEffect {
 }
 
 /// External model (like tests/external.rs) with a configurable framebuffer size and
-/// colour type; init programs only the address mode.
+/// colour type; init wakes the controller and programs the address mode.
 pub struct VModel<C, const FW: u16, const FH: u16>(pub PhantomData<C>);
 impl<C, const FW: u16, const FH: u16> VModel<C, FW, FH> {
     pub fn new() -> Self {
@@ -82,6 +82,8 @@ impl<C: RgbColor, const FW: u16, const FH: u16> Model for VModel<C, FW, FH> {
         options: &ModelOptions,
     ) -> Result<SetAddressMode, ModelInitError<DI::Error>> {
         let madctl = SetAddressMode::from(options);
+        di.write_command(mipidsi::dcs::ExitSleepMode)?;
+        _delay.delay_us(120_000);
         di.write_command(madctl)?;
         Ok(madctl)
     }
